@@ -8,6 +8,7 @@ import AffVerif.Judge.C10
 import AffVerif.Judge.C15
 import AffVerif.Judge.C14
 import AffVerif.Judge.C09
+import AffVerif.Judge.C18
 /-! The judge: reads one case per line on stdin, prints one verdict per line. -/
 open AV AV.Judge
 
@@ -20,6 +21,7 @@ def judgeLine (line : String) : String :=
     | "C16" => judgeC16
     | "C12" => judgeC12
     | "C10" => judgeC10
+    | "C18" => judgeC18
     | "C09" => judgeC09
     | "C14" => judgeC14
     | "C15" => judgeC15
